@@ -632,6 +632,18 @@ func genCase(o opts) func(rt *rapid.T) Case {
 					default:
 						p.Value = g + p.Value + ">"
 					}
+					// the quote character that does not delimit the value is ordinary text as well, as are '=' and "/>"
+					other := "'"
+					if p.Quote == '\'' {
+						other = "\""
+					}
+					if rapid.Bool().Draw(rt, "otherquote") {
+						h := len(p.Value) / 2
+						for h > 0 && h < len(p.Value) && p.Value[h]&0xC0 == 0x80 {
+							h--
+						}
+						p.Value = p.Value[:h] + rapid.SampledFrom([]string{other, " a=" + other + "b" + other + " ", "/>", "="}).Draw(rt, "oq") + p.Value[h:]
+					}
 				case kUUID:
 					// identifiers as applications write them: the UUID follows the last ':'
 					u := p.Value[strings.LastIndexByte(p.Value, ':')+1:]
